@@ -26,6 +26,7 @@ import (
 	"verif/internal/hx"
 	"verif/internal/recfs"
 	"verif/keys"
+	"verif/ref/refauth"
 	"verif/ref/refesl"
 	"verif/ref/refp7"
 	"verif/shim/vtime"
@@ -46,6 +47,8 @@ type faultPlan struct {
 	// effective: index of the first call at which a fault was really delivered
 	// (a kind that does not apply to the call, e.g. "short" at open, delivers nothing)
 	effective int
+	// disarmed: the dependency has recovered; later calls are counted but never fail
+	disarmed bool
 }
 
 func (p *faultPlan) hit() {
@@ -57,6 +60,9 @@ func (p *faultPlan) hit() {
 func (p *faultPlan) next(op string) string {
 	p.calls++
 	p.log = append(p.log, op)
+	if p.disarmed {
+		return ""
+	}
 	if p.from > 0 && p.calls >= p.from {
 		return p.fromKnd
 	}
@@ -111,11 +117,22 @@ type faultReader struct {
 }
 
 func (f *faultReader) Read(p []byte) (int, error) {
-	if k := f.plan.next("reader.Read"); k != "" {
+	switch f.plan.next("reader.Read") {
+	case "":
+		return f.r.Read(p)
+	case "unexpected-eof": // some data and an error in the same call
 		f.plan.hit()
-		return 0, errInjected
+		n, _ := f.r.Read(p[:(len(p)+1)/2])
+		return n, io.ErrUnexpectedEOF
+	case "short": // legal: fewer bytes than asked for, no error
+		if len(p) <= 1 {
+			return f.r.Read(p)
+		}
+		f.plan.hit()
+		return f.r.Read(p[:1])
 	}
-	return f.r.Read(p)
+	f.plan.hit()
+	return 0, errInjected
 }
 
 // ---- operations ----
@@ -237,12 +254,20 @@ func c15Ops() []c15Op {
 		}
 		before := string(p.Bytes())
 		nb, _ := p.Signatures()
+		hb := p.Hash(crypto.SHA256)
 		_, err = p.Sign(&faultSigner{memoSignerFor(1), plan}, cert)
 		after := string(p.Bytes())
 		na, _ := p.Signatures()
 		if err != nil {
 			side := ""
-			if before != after || len(nb) != len(na) {
+			if before != after || len(nb) != len(na) || !bytes.Equal(hb, p.Hash(crypto.SHA256)) {
+				side = "IMAGE OBJECT CHANGED BY A FAILED SIGN"
+			}
+			// the object is still usable: a second, healthy signing succeeds and verifies
+			plan.disarmed = true
+			if _, err2 := p.Sign(memoSignerFor(1), cert); err2 != nil {
+				side = "IMAGE OBJECT CHANGED BY A FAILED SIGN"
+			} else if ok, _ := p.Verify(cert); !ok {
 				side = "IMAGE OBJECT CHANGED BY A FAILED SIGN"
 			}
 			return c15Result{err: err, side: side}
@@ -294,6 +319,88 @@ func c15Ops() []c15Op {
 			return c15Result{value: "unparsable signature"}
 		}
 		return c15Result{value: "signed digest " + hx8(spcDigest(sd))}
+	}))
+	// the same image object after the reader recovered: step 1 runs under faults, step 2 healthy
+	type step struct {
+		name string
+		f    func(p *authenticode.PECOFFBinary) (string, error)
+	}
+	steps := []step{
+		{"Hash", func(p *authenticode.PECOFFBinary) (string, error) {
+			d := p.Hash(crypto.SHA256)
+			if d == nil {
+				return "", errors.New("no digest")
+			}
+			return "digest " + hx8(d), nil
+		}},
+		{"Verify", func(p *authenticode.PECOFFBinary) (string, error) {
+			ok, err := p.Verify(cert)
+			return fmt.Sprintf("verify=%v", ok), err
+		}},
+		{"Sign", func(p *authenticode.PECOFFBinary) (string, error) {
+			sig, err := p.Sign(memoSignerFor(1), cert)
+			if err != nil {
+				return "", err
+			}
+			sd, perr := refp7.Parse(sig)
+			if perr != nil {
+				return "unparsable signature", nil
+			}
+			return "signed digest " + hx8(spcDigest(sd)), nil
+		}},
+	}
+	for _, s1 := range steps {
+		for _, s2 := range steps {
+			s1, s2 := s1, s2
+			ops = append(ops, c15Op{name: "one image object: " + s1.name + " under reader faults, then " + s2.name + " after the reader recovered", kinds: rdKinds, run: func(plan *faultPlan) c15Result {
+				plan.disarmed = true
+				p, err := authenticode.Parse(&faultReaderAt{signed, plan})
+				if err != nil {
+					return c15Result{err: err}
+				}
+				plan.disarmed = false
+				s1.f(p)
+				plan.disarmed = true
+				v, err := s2.f(p)
+				if s1.name == "Sign" && s2.name == "Sign" {
+					v = "second signing done" // the signed digest is judged by the other combinations
+				}
+				return c15Result{err: err, value: v}
+			}})
+		}
+	}
+	// decoders over a caller-supplied io.Reader
+	twoLists := refesl.Encode([]refesl.List{
+		refesl.Mk(refesl.SHA256, 48, refesl.Entry{Owner: ownerA, Data: fill(32, 1)}, refesl.Entry{Owner: ownerB, Data: fill(32, 2)}),
+		refesl.Mk(refesl.X509, 16+70, refesl.Entry{Owner: ownerB, Data: fill(70, 9)}),
+		refesl.Mk(refesl.SHA256, 48, refesl.Entry{Owner: ownerA, Data: fill(32, 3)})})
+	rdOp := func(name string, data []byte, f func(r io.Reader) (string, error)) c15Op {
+		return c15Op{name: name, kinds: []string{"err", "unexpected-eof", "short"}, run: func(plan *faultPlan) c15Result {
+			v, err := f(&faultReader{bytes.NewReader(data), plan})
+			return c15Result{err: err, value: v}
+		}}
+	}
+	ops = append(ops, rdOp("signature.ReadSignatureDatabase (reader fault)", twoLists, func(r io.Reader) (string, error) {
+		db, err := signature.ReadSignatureDatabase(r)
+		if err != nil {
+			return "", err
+		}
+		return "db " + hx8(db.Bytes()), nil
+	}))
+	ops = append(ops, rdOp("signature.ReadSignatureList (reader fault)", twoLists, func(r io.Reader) (string, error) {
+		l, err := signature.ReadSignatureList(r)
+		if err != nil {
+			return "", err
+		}
+		return "list " + hx8(l.Bytes()), nil
+	}))
+	wc := append(refauth.WinCert{Length: 8 + 37, Revision: 0x0200, Type: 0x0002, Body: fill(37, 5)}.Bytes(), fill(11, 0x77)...)
+	ops = append(ops, rdOp("signature.ReadWinCertificate (reader fault)", wc, func(r io.Reader) (string, error) {
+		w, err := signature.ReadWinCertificate(r)
+		if err != nil {
+			return "", err
+		}
+		return fmt.Sprintf("wincert %d %#x %#x %s", w.Length, w.Revision, uint16(w.CertType), hx8(w.Certificate)), nil
 	}))
 	// filesystem: writes
 	fsWrite := func(name string, f func(rec *recfs.Fs, plan *faultPlan) error) c15Op {
@@ -387,10 +494,10 @@ func init() {
 	hx.Register(&hx.Prop{
 		ID:    "C15",
 		Level: "fault_enumeration",
-		Rule: "for each operation (sign blob / Authenticode digest / variable update; sign an image object; parse+hash, parse+verify, parse+sign over a caller-supplied reader; write variable via object and legacy API; signed update; read variable via GetVar, typed accessor and legacy API) the dependency-call sequence is recorded fault-free, then re-run with the k-th call failing for every k and every fault kind " +
-			"(signer: error; filesystem: error at open/stat/read/write/close, short write, short read; reader: error, partial read with io.ErrUnexpectedEOF), then with every pair of calls failing (deviation bound 2, sequences up to 60 calls), then with every call from k on failing. " +
+		Rule: "for each operation (sign blob / Authenticode digest / variable update; sign an image object; parse+hash, parse+verify, parse+sign over a caller-supplied reader; write variable via object and legacy API; signed update; read variable via GetVar, typed accessor and legacy API; decode a signature database / list / WIN_CERTIFICATE from a caller-supplied io.Reader; on one image object each of Hash/Verify/Sign under reader faults followed by each of Hash/Verify/Sign after the reader recovered) the dependency-call sequence is recorded fault-free, then re-run with the k-th call failing for every k and every fault kind " +
+			"(signer: error; filesystem: error at open/stat/read/write/close, short write, short read; reader: error, partial read with io.ErrUnexpectedEOF, legal one-byte short reads), then with every pair of calls failing (deviation bound 2, sequences up to 60 calls), then with every call from k on failing. " +
 			"oracle: no panic/exit; an error (or nil digest) is returned whenever a call the result depends on failed: always for signer and filesystem faults and for persistent reader faults; for a transient reader fault the operation may succeed only with exactly the fault-free value; " +
-			"a failed Sign leaves Bytes()/Signatures() of the image object unchanged; a failed signed update issues no Write. non-trivial = a fault was injected and observed by the operation; distinct = distinct (operation, fault positions, kinds)",
+			"a failed Sign leaves Bytes()/Signatures()/Hash() of the image object unchanged and the object signable; after every faulted run the same operation with healthy dependencies must give the fault-free result again (nothing left behind in the library); a failed signed update issues no Write. non-trivial = a fault was injected and observed by the operation; distinct = distinct (operation, fault positions, kinds)",
 		Assumptions: []string{"faults are injected at the caller-supplied seams only (crypto.Signer, afero.Fs, io.ReaderAt/io.Reader)", "a close error on the read path is not judged; a short read (n<len, nil error) is legal for io.Reader and must yield the right value or an error", "built with the log shim so that process termination is an outcome"},
 		Units: func(tier string) []string {
 			var u []string
@@ -434,6 +541,14 @@ func c15Run(c *hx.Ctx, tier, unit string) {
 		}
 		var r c15Result
 		pn := hx.Try(func() { r = op.run(plan) })
+		// whatever happened under the fault, the same operation on fresh objects with healthy
+		// dependencies must afterwards give the fault-free result (no state left behind)
+		var again c15Result
+		pn2 := hx.Try(func() { again = op.run(&faultPlan{failAt: map[int]string{}}) })
+		if pn == nil && (pn2 != nil || again.err != nil || again.value != ref.value) {
+			c.Outcome("violation")
+			c.Violation("C15 "+op.name+": after a run with a failing dependency the same operation with healthy dependencies no longer gives the fault-free result", map[string]any{"operation": op.name, "faults": desc, "error": fmt.Sprint(again.err, pn2), "value": trunc(again.value, 120), "fault_free_value": trunc(ref.value, 120)})
+		}
 		// which seam was hit first?
 		seam := "?"
 		idx := plan.effective
@@ -469,7 +584,7 @@ func c15Run(c *hx.Ctx, tier, unit string) {
 		}
 		// success reported
 		kind := faultKindOf(plan)
-		transientReader := strings.HasPrefix(seam, "reader") && !persistent
+		transientReader := strings.HasPrefix(seam, "reader") && (!persistent || strings.HasPrefix(op.name, "one image object:") || kind == "persistent short")
 		shortRead := strings.HasSuffix(kind, "short") && strings.HasSuffix(seam, "f.Read")
 		readClose := strings.HasSuffix(seam, "f.Close") && (strings.Contains(op.name, "Get") || strings.Contains(op.name, "Read"))
 		if transientReader || shortRead || readClose {
